@@ -228,6 +228,7 @@ inline int run_main(int argc, char **argv, const Harness &h) {
     for (size_t i = 0; i < h.assumptions.size(); i++) fprintf(f, "%s\"%s\"", i ? ", " : "", jesc(h.assumptions[i]).c_str());
     fprintf(f, "],\n \"evaluations\": %llu, \"distinct_nontrivial\": %llu, \"states\": %llu, \"transitions\": %llu, \"traces_validated\": %llu,\n", (unsigned long long)snap.evaluations,
             (unsigned long long)snap.nontrivial, (unsigned long long)snap.states, (unsigned long long)snap.transitions, (unsigned long long)snap.validated);
+    if (snap.nsamples == 0) { snprintf(snap.samples[0], 1024, "%s", snap.marker); snap.nsamples = 1; }
     fprintf(f, " \"samples\": [");
     for (int i = 0; i < snap.nsamples; i++) fprintf(f, "%s\"%s\"", i ? ", " : "", jesc(snap.samples[i]).c_str());
     fprintf(f, "],\n \"detail\": {\"notes\": \"%s\", \"suppressed_duplicate_violations\": %llu},\n \"violations\": [\n", jesc(snap.detail).c_str(), (unsigned long long)snap.suppressed);
